@@ -234,9 +234,15 @@ def concretize(segs, val):
     for s in segs:
         if s[0] == "c":
             out += bytes.fromhex(s[1])
+        elif s[0] == "m":
+            out += w32(hard_fun(val[s[1]]))
         else:
             out += (val[s[1]] % (1 << (8 * s[2]))).to_bytes(s[2], "big")
     return out
+
+
+def hard_fun(x):
+    return (x * x * x + 0x9E3779B97F4A7C15 * x) % W
 
 
 def segs_of(data, syms=()):
@@ -620,6 +626,9 @@ def impl_l2(case):
         if s[0] == "c":
             if s[1]:
                 parts.append(bytes.fromhex(s[1]))
+        elif s[0] == "m":
+            x = syms.setdefault(s[1], z3.BitVec(s[1], 256))
+            parts.append(x * x * x + z3.BitVecVal(0x9E3779B97F4A7C15, 256) * x)
         else:
             parts.append(syms.setdefault(s[1], z3.BitVec(s[1], 8 * s[2])))
     data = ByteVec(parts)
@@ -722,6 +731,16 @@ def gen_l2(tier, r, table):
         add(depth, T, "assertEq(uint256,uint256)", abi_encode([("w", 0), ("w", 0)]), [(0, 32, "x"), (32, 32, "x")], xs)
         add(depth, T, "assertTrue(bool)", abi_encode([("w", 0)]), [(0, 32, "x")], xs)
         add(depth, T, "assertFalse(bool)", abi_encode([("w", 0)]), [(31, 1, "x")], [{"x": v % 256} for v in pool])
+        # a condition the solver cannot decide within the 1 ms branching timeout (=> unknown): both
+        # the failing branch and the continuing path must exist
+        hx = r.choice(pool[4:])
+        hv = [{"x": hx}, {"x": (hx + 1) % W}, {"x": 3}, {"x": 0}]
+        cases.append({"kind": "l2", "mode": "assert", "depth": depth, "assume": T, "sig": "assertEq(uint256,uint256)",
+                      "sel": by_sig["assertEq(uint256,uint256)"][0], "descr": list(by_sig["assertEq(uint256,uint256)"][1]),
+                      "segs": [["m", "x"], ["c", w32(hard_fun(hx)).hex()]], "vals": hv})
+        cases.append({"kind": "l2", "mode": "assert", "depth": depth, "assume": T, "sig": "assertLt(int256,int256)",
+                      "sel": by_sig["assertLt(int256,int256)"][0], "descr": list(by_sig["assertLt(int256,int256)"][1]),
+                      "segs": [["m", "x"], ["c", w32(hard_fun(hx)).hex()]], "vals": hv})
         # bytes / arrays
         a = bytes(r.randrange(256) for _ in range(33))
         add(depth, T, "assertEq(bytes,bytes)", abi_encode([("b", a), ("b", a)]))
@@ -799,7 +818,9 @@ def check_l2(rep, bad, l2, impl2, res2):
         d = tuple(c["descr"]) if c["descr"] else None
         shown = {"l2": True, "mode": c["mode"], "depth": c["depth"], "assume": c["assume"], "sig": c["sig"], "sel": c["sel"], "segs": c["segs"]}
         rep.count("l2_depth", c["depth"])
-        rep.count("l2_mode", c["mode"] + ("/symbolic" if any(s[0] == "s" for s in c["segs"]) else "/concrete"))
+        rep.count("l2_mode", c["mode"] + ("/hard" if any(s[0] == "m" for s in c["segs"]) else "/symbolic" if any(s[0] == "s" for s in c["segs"]) else "/concrete"))
+        if im.get("checks"):
+            rep.count("l2_solver_answers", "/".join(im["checks"]))
         nontriv = False
         if "exc" in im:
             cd0 = c["sel"].to_bytes(4, "big") + concretize(c["segs"], c["vals"][0])
@@ -947,6 +968,7 @@ def run(rep, tier):
             calls.append(("c13_run", enc_sig_cd(c["sig"], cd)))
             where["s", i, j] = len(calls)
             calls.append(("c13_spec", enc_sig_cd(c["sig"], cd)))
+    table_sigs = {render(d) for d in table.values()}
     for i, sc in enumerate(sig_cases):
         for j, p in enumerate(sc["probes"]):
             if is_huge(impl_s[i][j]):
@@ -1008,12 +1030,18 @@ def run(rep, tier):
         rep.count("symbolic", "symbolic" if any(s[0] == "s" for s in c["segs"]) else "concrete")
         rep.case({"sig": c["sig"], "segs": c["segs"] if sum(len(s[1]) // 2 if s[0] == "c" else s[2] for s in c["segs"]) <= 300 else "long:" + common.case_hash(c["segs"]), "nvals": len(c["vals"])}, nontrivial=nontriv)
 
+    table_sigs = {render(d) for d in table.values()}
     for i, sc in enumerate(sig_cases):
         for j, p in enumerate(sc["probes"]):
             if res is not None and ("p", i, j) in where:
                 mo = res[where["p", i, j]]
                 if mo != impl_s[i][j]:
-                    bad("broken-tie", f"mk_assert_handler({sc['sig']!r}) behaves differently from the model on probe {j}: implementation {impl_s[i][j]}, model {mo}", {"sig": sc["sig"], "probe": p})
+                    if sc["sig"] in table_sigs:
+                        bad("broken-tie", f"mk_assert_handler({sc['sig']!r}) behaves differently from the model on probe {j}: implementation {impl_s[i][j]}, model {mo}", {"sig": sc["sig"], "probe": p})
+                    else:
+                        # mk_assert_handler is only ever applied to the table's signatures: a difference on
+                        # another string does not concern the property; it is recorded in the evidence
+                        rep.coverage.setdefault("signature_variant_disagreements", []).append(sc["sig"]) if len(rep.coverage.get("signature_variant_disagreements", [])) < 20 else None
         rep.count("signature_strings", "table" if sc["sig"] in {render(d) for d in table.values()} else "variant")
         rep.case({"mk_assert_handler": sc["sig"]}, nontrivial=impl_s[i][0] != [0])
 
